@@ -12,7 +12,7 @@ Proof. intros a b c [H1 H2] [H3 H4]. split; [intro i; rewrite H1; apply H3|congr
 
 Lemma spec_step_congr : forall a b o, sst_eq a b -> sst_eq (spec_step a o) (spec_step b o).
 Proof.
-  intros a b o [Hv Hi]. destruct o as [i v|i v|i|s]; cbn [spec_step].
+  intros a b o [Hv Hi]. destruct o as [i v|i v|i|s|n]; cbn [spec_step]; [| | | |split; assumption].
   - destruct (is_nil i); [split; assumption|]. rewrite <- (Hv i).
     destruct (sval a i); [split; assumption|].
     split; cbn [sset sval sinit]; [intro j; destruct (beq j i); [reflexivity|apply Hv]|exact Hi].
@@ -132,7 +132,9 @@ Lemma compile_op_shape : forall c o,
              /\ snd (compile_op c o) = apply_ws c ws
              /\ sst_eq (abs (apply_ws c ws)) (spec_step (abs c) o)).
 Proof.
-  intros c [i v|i v|i|s]; cbn [compile_op spec_step abs sval sinit].
+  intros c [i v|i v|i|s|n]; cbn [compile_op spec_step abs sval sinit];
+    [| | | |left; destruct (isSomeV (get KMark c));
+            [exists true|exists false; cbn [fst]; rewrite cl_vis_app, cl_vis_hits]; repeat split].
   - destruct (is_nil i); [left; exists false; repeat split|].
     destruct (get (KVal i) c) eqn:E; [left; exists false; repeat split|].
     right. exists FromOp, [WSet (KVal i) v]. repeat split; cbn [abs sset sval sinit apply_ws fold_left apply_wr].
